@@ -51,7 +51,9 @@ fn run_delete(
 }
 
 /// Oracle for what must survive any delete run (finished, refused, crashed or faulted): every
-/// complete version not requested for deletion restores exactly and keeps all its blocks.
+/// complete version that is still there afterwards - requested for deletion or not - restores
+/// exactly and keeps all its blocks ("every remaining complete version"), and no version that was
+/// not requested is gone.
 fn kept_intact(
     st: &HState,
     dir: &Path,
@@ -63,25 +65,35 @@ fn kept_intact(
 ) -> Vec<Violation> {
     let mut v = Vec::new();
     for (b, expected) in &st.live {
-        if sub.contains(b) {
+        let requested = sub.contains(b);
+        if !after.dirs.contains(&band_dir(*b)) {
+            if !requested {
+                v.push(Violation::new(
+                    format!("C05:unrequested-version-removed:{site}"),
+                    format!("{at}: b{b:04} was not requested but its directory is gone"),
+                ));
+            }
             continue;
         }
-        if !after.dirs.contains(&band_dir(*b)) {
-            v.push(Violation::new(
-                format!("C05:unrequested-version-removed:{site}"),
-                format!("{at}: b{b:04} was not requested but its directory is gone"),
-            ));
-            continue;
+        if requested && !(after.has_head_file(*b) && after.has_tail_file(*b)) {
+            continue; // partly removed: no longer a complete version
         }
         let diffs = restore_exact(dir, *b, expected, scratch, Cmp::FULL);
         if !diffs.is_empty() {
             v.push(Violation::new(
-                format!("C05:kept-version-no-longer-restores:{site}"),
+                format!(
+                    "C05:{}:{site}",
+                    if requested { "version-still-present-no-longer-restores" } else { "kept-version-no-longer-restores" }
+                ),
                 format!("{at}: b{b:04}: {diffs:?}"),
             ));
         }
     }
-    let remaining: Vec<u32> = after.band_ids().into_iter().filter(|b| !sub.contains(b)).collect();
+    let remaining: Vec<u32> = after
+        .band_ids()
+        .into_iter()
+        .filter(|b| !sub.contains(b) || (after.has_head_file(*b) && after.has_tail_file(*b)))
+        .collect();
     let problems = common::ref_scan(after, &remaining);
     if !problems.is_empty() {
         v.push(Violation::new(
@@ -228,6 +240,24 @@ pub fn on_state(
 ) -> Vec<(Violation, Value)> {
     let mut out = Vec::new();
     let ids = st.snap.band_ids();
+    // A delete that names a version which does not exist, before and after an existing one: it
+    // fails, and whatever is still there afterwards must be unharmed.
+    if let Some(b) = ids.first() {
+        for sub in [vec![9999, *b], vec![*b, 9999]] {
+            let dir = scratch.fresh("d");
+            let (o, _log, after) = run_delete(st, &dir, &sub, false, &Plan::none(), &None);
+            counters.runs.fetch_add(1, std::sync::atomic::Ordering::SeqCst);
+            let at = format!("seed {} after {:?}: delete {sub:?} (9999 does not exist) -> {}", st.seed, st.describe_path(), o.op.describe());
+            let c = case(st, &sub, false, &Plan::none(), &None);
+            if let Some(p) = &o.op.panicked {
+                out.push((Violation::new("C05:delete-panicked", format!("{at}: {p}")), c.clone()));
+            }
+            for v in kept_intact(st, &dir, &after, &sub, scratch, &at, "names-a-missing-version") {
+                out.push((v, c.clone()));
+            }
+            let _ = std::fs::remove_dir_all(&dir);
+        }
+    }
     for sub in subsets(&ids) {
         for dry in [true, false] {
             let dir = scratch.fresh("d");
